@@ -1,5 +1,119 @@
-/- C03 — theorems under construction. -/
-import BEI.Model.App
+/-
+  C03 — Condition results combine by the explicit / implicit / blocker law, for any number, order and mix of
+  conditions (built-in or user-defined: `Cond` is an arbitrary state machine), at input level, at action level and
+  when both levels are combined.  `lawState` / `lawEventsBlocked` (Proofs/Law.lean) transcribe the statement.
+-/
+import BEI.Proofs.Update
+import BEI.Model.Conditions
 namespace BEI.Props.C03
-theorem placeholder_true : True := trivial
+open BEI
+
+/-- (1) one level: for every value and every list of conditions, evaluating them all with `apply_conditions` from a
+    fresh tracker gives the law's state and event suppression; the value is untouched; every condition ran once -/
+theorem tracker_fold_law (av : ActionsView) (t : Tick) (v : Value) (cs : List Cond) :
+    let out := (Tracker.new v).applyConditions av t cs
+    out.1.state = lawState (runConds av t cs v) v.asBool
+    ∧ out.1.eventsBlocked = lawEventsBlocked (runConds av t cs v)
+    ∧ out.1.value = v
+    ∧ (runConds av t cs v).length = cs.length := by
+  have hc := applyConditions_spec av t cs (Tracker.new v) [] (TInv.new v)
+  have hr := applyConditions_results av t cs (Tracker.new v)
+  simp only [List.nil_append, hr] at hc
+  refine ⟨?_, hc.1.eb, hc.2.1, by simp [runConds]⟩
+  have := state_of_TInv _ _ hc.1
+  rw [hc.2.1] at this
+  exact this
+
+/-- the law does not depend on anything but the multiset structure the statement names: in particular the position
+    of a failed blocker is irrelevant (any order) -/
+theorem law_blocker_anywhere (pre post : List Res) (nz : Bool) :
+    lawState (pre ++ (Kind.blocker, AState.none) :: post) nz = .none := by
+  simp [lawState]
+
+theorem law_events_blocker_anywhere (pre post : List Res) :
+    lawEventsBlocked (pre ++ (Kind.eventsBlocker, AState.none) :: post) = true := by
+  simp [lawEventsBlocked]
+
+/-- with no explicit or implicit condition present and no failed blocker: Fired iff the value is non-zero -/
+theorem law_no_conditions (rs : List Res) (nz : Bool)
+    (h : ∀ r ∈ rs, (r.1 = .blocker ∨ r.1 = .eventsBlocker) ∧ (r.1 = .blocker → r.2 ≠ .none)) :
+    lawState rs nz = if nz then .fired else .none := by
+  unfold lawState
+  have h1 : (rs.any fun r => r.1 == .blocker && r.2 == .none) = false := by
+    rw [List.any_eq_false]; intro r hr; have := h r hr; cases hk : r.1 <;> simp_all
+  have h2 : rs.any Res.isExplicit = false := by
+    rw [List.any_eq_false]; intro r hr; have := (h r hr).1; simp [Res.isExplicit]; rcases this with h | h <;> simp [h]
+  have h3 : rs.any Res.isImplicit = false := by
+    rw [List.any_eq_false]; intro r hr; have := (h r hr).1; simp [Res.isImplicit]; rcases this with h | h <;> simp [h]
+  simp [h1, h2, h3]
+
+/-- (2) input level: an evaluated input's own state is the law applied to the results of its own conditions on its
+    modified raw value -/
+theorem input_level_law (r : Reader) (av : ActionsView) (t : Tick) (b : InputBind) (e : Ev)
+    (h : (evalInput r av t b).2.1 = some e) :
+    e.state = lawState (runConds av t b.conds (runMods av t b.mods (r.value b.input)))
+                       (runMods av t b.mods (r.value b.input)).asBool := by
+  obtain ⟨_, hv, hr, hs, _⟩ := evalInput_spec r av t b e h
+  rw [hs, hr, hv]
+
+/-- (3) both levels combined: after one `ActionBind::update` the polled state is the law applied to the results of
+    the contributing inputs' conditions (C04) together with the action-level conditions' results, on the value after
+    the action-level modifiers; events are suppressed iff some events-only blocker among them failed — and the new
+    state and value are stored (and polled) in either case. -/
+theorem action_level_law (ab : ActionBind) (r : Reader) (av : ActionsView) (t : Tick) (es : List Nat)
+    (o : ActionBind.Out) (h : ab.update r av t es = some o) :
+    ∃ d, o.actions.get? ab.action = some d ∧
+      let C := contributing (evalAll r av t ab.bindings)
+      let v' := runMods av t ab.mods (mergedValue ab.dim ab.accum (C.map (·.tracker.value)))
+      let rs := C.flatMap (·.results) ++ runConds av t ab.conds v'
+      d.state = lawState rs v'.asBool
+      ∧ d.value = v'.convert ab.dim
+      ∧ o.eventsBlocked = lawEventsBlocked rs
+      ∧ (o.eventsBlocked = true → o.deliveries = [])
+      ∧ (o.eventsBlocked = false → o.deliveries = triggerEvents ab.action d es) := by
+  obtain ⟨old, d, hold, hd, hchar⟩ := update_char ab r av t es o h
+  obtain ⟨hdv, heb, _⟩ := hchar
+  refine ⟨d, hd, ?_, ?_, heb, ?_, ?_⟩
+  · rw [hdv]; simp [ActionData.update]
+  · rw [hdv]; simp [ActionData.update]
+  all_goals
+    intro hb
+    unfold ActionBind.update at h
+    simp only at h
+    split at h
+    · cases h
+    · rename_i old' hold'
+      simp only [Option.some.injEq] at h
+      subst h
+      simp only at hb hd ⊢
+      rw [ActionsView.get?_set_same _ _ _ _ hold'] at hd
+      cases hd
+      simp [hb]
+
+/-- non-vacuity / realisability: *every* finite sequence of (kind, result) letters is produced by some list of
+    (scripted, user-defined) conditions, so the quantification over result lists in the law is not vacuous -/
+theorem every_result_list_realised (av : ActionsView) (t : Tick) (v : Value) (rs : List Res) :
+    ∃ cs : List Cond, runConds av t cs v = rs := by
+  refine ⟨rs.map (fun r => Cond.scripted 0 r.1 [r.2]), ?_⟩
+  induction rs with
+  | nil => rfl
+  | cons r rs ih =>
+    simp only [runConds, List.map_cons, List.map_map] at ih ⊢
+    rw [ih]
+    simp [Cond.eval, Cond.scripted]
+
+/-- D1 (fixed by 90cc871): the pinned code *assigned* the blocker flags instead of accumulating them; that fold
+    violates the law — two blockers [fails, passes] do not block. Kept as documentation of the defect. -/
+def legacyNote (tr : Tracker) (k : Kind) (st : AState) : Tracker :=
+  match k with
+  | .blocker => { tr with blocked := st == .none }
+  | .eventsBlocker => { tr with eventsBlocked := st == .none }
+  | _ => tr.note k st
+
+theorem legacy_counterexample :
+    ((legacyNote (legacyNote (Tracker.new (.bool true)) .blocker .none) .blocker .fired).state
+      ≠ lawState [(.blocker, .none), (.blocker, .fired)] true)
+    ∧ (((Tracker.new (.bool true)).note .blocker .none).note .blocker .fired).state
+      = lawState [(.blocker, .none), (.blocker, .fired)] true := by decide
+
 end BEI.Props.C03
